@@ -339,6 +339,25 @@ func c18Case(w *core.W, j int) {
 				w.Count("key_alterations", 1)
 			}
 		}
+		// the right owner, algorithm and tag field, but a public key that cannot be a key of that
+		// algorithm (too short, too long, empty, not base64): an error, for the genuine message too
+		{
+			raw, _ := base64.StdEncoding.DecodeString(k.Key.PublicKey)
+			for di, dmg := range []string{base64.StdEncoding.EncodeToString(raw[:len(raw)-1]), base64.StdEncoding.EncodeToString(append(append([]byte{}, raw...), 0)), "", "!!!not-base64!!!", base64.StdEncoding.EncodeToString(raw[:1])} {
+				key6 := &dns.KEY{DNSKEY: *dns.Copy(k.Key).(*dns.DNSKEY)}
+				key6.Hdr.Rrtype = dns.TypeKEY
+				key6.PublicKey = dmg
+				s6 := dns.Copy(sig).(*dns.SIG)
+				if verr, ok := verify(s6, key6, out); ok && verr == nil {
+					w.Violation(keyf(fmt.Sprintf("accepts-damaged-key/%d", di)), fmt.Sprintf("the signed message verifies under a KEY whose public key is %q", cutS(dmg)), wit)
+				}
+				s6.KeyTag = key6.KeyTag()
+				if verr, ok := verify(s6, key6, out); ok && verr == nil {
+					w.Violation(keyf(fmt.Sprintf("accepts-damaged-key/%d+tag", di)), fmt.Sprintf("the signed message verifies under a KEY whose public key is %q (tag matched)", cutS(dmg)), wit)
+				}
+				w.Count("key_alterations", 2)
+			}
+		}
 		// a key owner that differs from the signer name in one octet by 0x20 where neither is a letter
 		kn := keyName.Pres()
 		for i := 0; i < len(kn); i++ {
@@ -462,7 +481,7 @@ func init() {
 	core.Register(&core.Monitor{
 		ID: "C18", Level: "fault_enumeration", Plan: plan, Run: run, Terminates: true, CaseTimeout: 300e9,
 		Rule: "messages {header-only update, heavily compressible, 254..512 additional records, pool names, all registry types} x Compress on/off x RSASHA1/256/512, ECDSA P-256/P-384, Ed25519; oracle = independent RFC 2931 verification (model walk + Go crypto): Sign must succeed, output = packed message || SIG with ARCOUNT+1, verifies independently and with Verify (original and re-decoded SIG); " +
-			"every single-bit flip of the message part and the SIG RDATA (signed messages <= 220 octets; 256 sampled bits incl. the whole header above), other key, a KEY of every other algorithm (with and without matching tag), other signer name (incl. one differing by 0x20 in a non-letter), signed sizes of exactly 65534/65535/65536 octets, windows entirely in the past/future and empty windows with expiration before inception (>= 1 h from the real clock), a second message signed with the same SIG value, every truncation point >= 12 (<= 400 octets; ~300 sampled above), 60 structure-aware mutations; Verify==nil implies the model accepts; no panic; " +
+			"every single-bit flip of the message part and the SIG RDATA (signed messages <= 220 octets; 256 sampled bits incl. the whole header above), other key, a KEY of every other algorithm (with and without matching tag), KEYs with truncated / extended / empty / non-base64 public keys, other signer name (incl. one differing by 0x20 in a non-letter), signed sizes of exactly 65534/65535/65536 octets, windows entirely in the past/future and empty windows with expiration before inception (>= 1 h from the real clock), a second message signed with the same SIG value, every truncation point >= 12 (<= 400 octets; ~300 sampled above), 60 structure-aware mutations; Verify==nil implies the model accepts; no panic; " +
 			"non-trivial = distinct signed message",
 		Assumptions: []string{"SIG.Verify reads the wall clock: windows are placed at least one hour from it, the exact boundary second is not decided", "bits of the SIG RR's own owner/type/class/TTL/RDLENGTH are outside the statement ('the message or the SIG RDATA')"},
 		MinObserved: []string{"signed", "alterations_rejected", "exhaustive_bitflip_messages", "exhaustive_truncation_messages", "truncations", "window_checks", "key_alterations"},
